@@ -25,6 +25,7 @@ import (
 	"strings"
 	"sync"
 	"testing"
+	"time"
 
 	"github.com/nuts-foundation/go-did/did"
 	"github.com/nuts-foundation/go-stoabs"
@@ -38,7 +39,6 @@ import (
 	"verif/lib/dagx"
 	"verif/lib/ev"
 	"verif/lib/faultstore"
-	"verif/lib/sched"
 )
 
 // ---- environment: real state, real didstore, recording subscribers -------------------------------------------
@@ -231,11 +231,8 @@ func (e *env) snapshot() *snap {
 	s.api["iblt"] = fmt.Sprintf("%s@%d", hex.EncodeToString(id[:8]), ic)
 	head, err := e.st.Head(context.Background())
 	s.api["head"] = fmt.Sprintf("%s %v", head, err)
-	for _, d := range e.st.Diagnostics() {
-		if d.Name() != "stored_database_size_bytes" {
-			s.api["diag."+d.Name()] = fmt.Sprint(d.Result())
-		}
-	}
+	// (Diagnostics() re-parses every job of every subscriber shelf; the counters it reports are compared by dagx.Compare at intervals and
+	// are covered here through the raw metadata shelf)
 	return s
 }
 
@@ -388,7 +385,6 @@ type seqRun struct {
 	r    *ev.Run
 	e    *env
 	dag  string
-	rec  *sched.Recorder
 	cls  map[string]int
 	stat map[string]int
 }
@@ -422,7 +418,8 @@ func (q *seqRun) offer(o *offerT, slot string, light bool) bool {
 	}
 	before := e.last
 	callsBefore := e.totalCalls()
-	rollbacks := q.rec.Count("dag.add.rollback")
+	e.fs.Arm(nil)
+	writesBefore := e.fs.Writes
 	v, why := m.judge(ref, &o.f, o.payload)
 
 	var tx dag.Transaction
@@ -542,7 +539,8 @@ func (q *seqRun) offer(o *offerT, slot string, light bool) bool {
 			}
 			r.Violation(k, fmt.Sprintf("%d receiver call(s) after a %s offer with result %s (model: %s)", callsNow-callsBefore, o.f.class, st, v), witness())
 		}
-		if n := q.rec.Count("dag.add.rollback") - rollbacks; n > 0 {
+		if e.fs.Writes > writesBefore && v != presentNoop {
+			// refused after the write transaction had begun: whatever it wrote (payload, subscriber jobs) was rolled back
 			r.Count("refused_inside_write_tx", 1)
 			r.Count("write_ops_rolled_back", len(e.fs.LastOps()))
 		}
@@ -657,9 +655,43 @@ func dagSpecs(r *ev.Run) []dagSpec {
 
 func sequential(t *testing.T, r *ev.Run, ks *keyring) {
 	classes := map[string]int{}
-	for di, sp := range dagSpecs(r) {
-		runDAG(t, r, ks, di, sp, classes)
+	var mu sync.Mutex
+	specs := dagSpecs(r)
+	jobs := make(chan int)
+	var wg sync.WaitGroup
+	// every DAG has its own store, model and PRNG stream: they run side by side (the case list does not depend on the interleaving)
+	for w := 0; w < 6; w++ {
+		wg.Add(1)
+		go func() {
+			defer wg.Done()
+			for di := range jobs {
+				local := map[string]int{}
+				t0 := time.Now()
+				runDAG(t, r, ks, di, specs[di], local)
+				mu.Lock()
+				for k, v := range local {
+					classes[k] += v
+				}
+				mu.Unlock()
+				if os.Getenv("C06_TIMING") != "" {
+					fmt.Printf("dag %d %s n=%d did=%v: %v\n", di, specs[di].shape, specs[di].n, specs[di].withDID, time.Since(t0))
+				}
+			}
+		}()
 	}
+	// long ones first
+	for di := range specs {
+		if specs[di].long {
+			jobs <- di
+		}
+	}
+	for di := range specs {
+		if !specs[di].long {
+			jobs <- di
+		}
+	}
+	close(jobs)
+	wg.Wait()
 	r.Extra("variants_by_class", classes)
 	r.Extra("variant_classes_offered", len(classes))
 }
@@ -670,12 +702,10 @@ func runDAG(t *testing.T, r *ev.Run, ks *keyring, di int, sp dagSpec, classes ma
 	d := genDAG(rnd, ks, sp.shape, sp.n, sp.withDID, tag)
 	e := openEnv(tmp(t, "seq"), sp.withDID)
 	e.m = newModel()
-	rec := &sched.Recorder{}
-	uninstall := rec.Install()
-	q := &seqRun{t: t, r: r, e: e, dag: fmt.Sprintf("%s-%d-%s", sp.shape, len(d.nodes), tag), rec: rec, cls: classes, stat: map[string]int{}}
+	q := &seqRun{t: t, r: r, e: e, dag: fmt.Sprintf("%s-%d-%s", sp.shape, len(d.nodes), tag), cls: classes, stat: map[string]int{}}
 	defer func() {
-		uninstall()
 		q.e.close()
+		os.RemoveAll(e.dir)
 	}()
 
 	// targets whose variants are offered
@@ -722,9 +752,14 @@ func runDAG(t *testing.T, r *ev.Run, ks *keyring, di int, sp dagSpec, classes ma
 			quota = len(all)
 		}
 		rnd.Shuffle(len(all), func(a, b int) { all[a], all[b] = all[b], all[a] })
+		// every DAG gets the core classes on its first target; targets signed with `kid` always get every key-reference class
+		isKid := d.nodes[i].f.kid != ""
+		must := func(o *offerT) bool {
+			return coreClasses[o.f.class] && (ti == 0 || isKid) || isKid && (o.f.group == "kid" || o.f.group == "key")
+		}
 		var sel []*offerT
 		for _, o := range all {
-			if coreClasses[o.f.class] && (ti == 0 || d.nodes[i].f.kid != "") {
+			if must(o) {
 				sel = append(sel, o)
 			}
 		}
@@ -732,7 +767,7 @@ func runDAG(t *testing.T, r *ev.Run, ks *keyring, di int, sp dagSpec, classes ma
 			if len(sel) >= quota {
 				break
 			}
-			if !(coreClasses[o.f.class] && (ti == 0 || d.nodes[i].f.kid != "")) {
+			if !must(o) {
 				sel = append(sel, o)
 			}
 		}
@@ -797,7 +832,16 @@ func runDAG(t *testing.T, r *ev.Run, ks *keyring, di int, sp dagSpec, classes ma
 			if deferred[i]++; deferred[i] > 200 {
 				r.Fatalf("arrival order does not make progress in %s: node %d kind %s prevs %v queue %v", q.dag, i, n.kind, n.prevs, queue)
 			}
-			at := min(len(queue), 1+rnd.Intn(3))
+			// comes back shortly after the last of its missing references
+			at := 0
+			for qi, qn := range queue {
+				for _, p := range n.prevs {
+					if p == qn {
+						at = qi + 1
+					}
+				}
+			}
+			at = min(len(queue), at+rnd.Intn(2))
 			queue = append(queue[:at], append([]int{i}, queue[at:]...)...)
 			continue
 		}
@@ -816,7 +860,7 @@ func runDAG(t *testing.T, r *ev.Run, ks *keyring, di int, sp dagSpec, classes ma
 		for _, o := range vs {
 			if o.slot == "pre" {
 				q.offer(o, "pre", false)
-				if o.f.class == "payload/supplied-does-not-hash" && n.f.doc == nil {
+				if o.f.class == "payload/supplied-does-not-hash" && n.f.doc == nil && i != 0 {
 					// the same bytes with the right payload right after the refusal
 					q.offer(&offerT{data: o.data, payload: n.content, f: withClass(o.f, "payload/right-payload-after-refusal")}, "pre", false)
 				}
@@ -881,7 +925,6 @@ func runDAG(t *testing.T, r *ev.Run, ks *keyring, di int, sp dagSpec, classes ma
 	q.compare("reopen", true)
 	r.Count("dags", 1)
 	r.Count("dag_transactions", len(d.nodes))
-	r.Count("rollbacks_observed", rec.Count("dag.add.rollback"))
 	hi := uint32(0)
 	kids := 0
 	for _, n := range d.nodes {
@@ -894,7 +937,7 @@ func runDAG(t *testing.T, r *ev.Run, ks *keyring, di int, sp dagSpec, classes ma
 		r.Count("dags_crossing_clock_512", 1)
 	}
 	r.Count("kid_transactions", kids)
-	if di < 2 || sp.long && di < 40 {
+	if di < 1 || sp.long && di < 40 {
 		r.Sample(map[string]any{"scenario": "dag", "dag": q.dag, "transactions": len(d.nodes), "highest_clock": hi, "kid_transactions": kids,
 			"did_documents": len(d.dids), "targets": len(order), "offers": q.stat["offers"], "store_bytes": final.size})
 	}
